@@ -56,6 +56,9 @@ type ExecOpts struct {
 	Prepare func(r *Run)
 	// ExtraTracers are bound in addition to the recording tracer.
 	ExtraTracers []am.Tracer
+	// NoGetterCalls: do not call any machine getter during setup (C12 wants the
+	// very first StateNames()/Schema() calls to happen concurrently).
+	NoGetterCalls bool
 }
 
 // LongTimeout is used as HandlerTimeout for all fault-free checks, so that a
@@ -84,7 +87,13 @@ func Exec(c Case, o ExecOpts) (*Run, error) {
 			return nil, err
 		}
 	}
-	r := &Run{M: m, Names: m.StateNames(), Schema: m.Schema(), Tracer: tr, Cancel: cancel}
+	r := &Run{M: m, Tracer: tr, Cancel: cancel}
+	if o.NoGetterCalls {
+		r.Names = c.Schema.Names()
+	} else {
+		r.Names = m.StateNames()
+		r.Schema = m.Schema()
+	}
 	r.Runner = NewRunner(m, c.Table)
 	if !c.Table.Empty() {
 		if err := r.Runner.Bind(); err != nil {
